@@ -61,8 +61,18 @@ def c11_pre(tier):
         os.makedirs(os.path.join(w, 'include/eav'))
         os.makedirs(os.path.join(w, 'src'))
         inc = '-I' + os.path.join(core.VERIF, 'stubs/perl')
-        p = subprocess.run(['perl', inc, 'util/gentld.pl', 'include/eav/auto_tld.h', 'src/auto_tld.c', 'data/punycode.csv'],
-                           cwd=w, stdout=subprocess.PIPE, stderr=subprocess.STDOUT)
+        # several hash seeds: the output must not depend on Perl's hash iteration order
+        hdrs = set()
+        for seed in ('0', '1', '2', '3', '4', '5'):
+            env = dict(os.environ, PERL_HASH_SEED=seed)
+            p = subprocess.run(['perl', inc, 'util/gentld.pl', 'include/eav/auto_tld.h', 'src/auto_tld.c', 'data/punycode.csv'],
+                               cwd=w, stdout=subprocess.PIPE, stderr=subprocess.STDOUT, env=env)
+            if p.returncode != 0:
+                break
+            hdrs.add(open(os.path.join(w, 'include/eav/auto_tld.h')).read() + '\0' +
+                     ''.join(open(os.path.join(w, 'src/auto_tld.c')).read().splitlines(True)[1:]))
+        res.append(('rerun-gentld-deterministic', p.returncode == 0 and len(hdrs) == 1,
+                    'generator output identical under 6 Perl hash seeds' if len(hdrs) == 1 else 'generator output depends on the Perl hash seed (%d variants)' % len(hdrs)))
         if p.returncode != 0:
             res.append(('rerun-gentld', False, 'generator failed: ' + p.stdout.decode()[-300:]))
         else:
